@@ -67,6 +67,17 @@ def scenarios(thorough):
                 out.append({"phase": "build", "label": label, "script": {"build": {"kind": "pass", "ops": ops, "launch": LAUNCH3, "store": STORE3, "build_sboms": SB3, "launch_sboms": SB3[:2]}}})
     out.append({"phase": "build", "label": "results-only", "script": {"build": {"kind": "pass", "launch": LAUNCH3, "store": STORE3, "build_sboms": SB3, "launch_sboms": SB3}}})
     out.append({"phase": "detect", "label": "plan", "script": {"detect": {"kind": "pass_plan", "plan": PLAN}}})
+    # a process type added twice (plus distinct ones), labels with a repeated key
+    dup = dict(LAUNCH3, processes=LAUNCH3["processes"] + [LAUNCH3["processes"][0], LAUNCH3["processes"][1]], labels=LAUNCH3["labels"] + [["k1", "again"]])
+    out.append({"phase": "build", "label": "duplicate-process-types", "script": {"build": {"kind": "pass", "launch": dup, "store": STORE3}}})
+    # a restored layer whose env directories hold aliasing files (NAME and NAME.override, written by
+    # other tooling), read and written back by three routes
+    pre = {"a.toml": "[metadata]\nk1 = 1\nk2 = 2\nk3 = 3\n", "a/env/RAILS_ENV": "production", "a/env/RAILS_ENV.override": "staging",
+           "a/env.launch/web/X": "1", "a/env.launch/web/X.override": "2", "a/env.build/Y.override": "b", "a/env.build/Y": "a", "a/keep": "k"}
+    for label, ops in (("aliasing-env:rewrite", [{"op": "cached", "name": "a", "build": True}, {"op": "rewrite_env", "name": "a"}]),
+                       ("aliasing-env:handle-keep", [{"op": "handle", "name": "a", "types": [True, True, True], "strategy": "keep", "result": RESULT3}]),
+                       ("aliasing-env:handle-update", [{"op": "handle", "name": "a", "types": [True, True, True], "strategy": "update", "result": dict(RESULT3, env=None)}])):
+        out.append({"phase": "build", "label": label, "pre": pre, "script": {"build": {"kind": "pass", "ops": ops}}})
     return out
 
 
@@ -98,6 +109,10 @@ def run_one(arg):
     w = World(os.path.join(scratch, f"c20-{idx}-{seed}-{tag}"))
     script = dict(sc["script"])
     script["dump"] = None
+    for rel, content in sc.get("pre", {}).items():
+        fp = w.p("layers", rel)
+        os.makedirs(os.path.dirname(fp), exist_ok=True)
+        open(fp, "w").write(content)
     r = w.run(sc["phase"], script, extra_env={"VERIF_HASH_SEED": str(seed)}, preload=SHIM)
     snap = snapshot(w.root)
     # outputs only: layers dir and the build plan
